@@ -568,7 +568,7 @@ NOT_CLAIMED = {pid: WIP for pid in ["C%02d" % i for i in range(1, 21)] if pid no
 HOOK_COMMITS = ["6f869d9", "e935e32", "bce5a7c", "1912acd"]
 
 # input families added after the rule texts above were written (kept apart so the texts above stay readable)
-_STORE_MORE = ("; further families: keys \"-1\" and \" \" in the alphabet and, next to both spellings of key zero in one batch, a third point of that type whose key sorts between them; one identity written at instants near both ends of the nanosecond range and in between, the same "
+_STORE_MORE = ("; further families: half of the refused cycle-closing edges are requested through client.MoveNode (the move helper must send the refused request first and nothing else); keys \"-1\" and \" \" in the alphabet and, next to both spellings of key zero in one batch, a third point of that type whose key sorts between them; one identity written at instants near both ends of the nanosecond range and in between, the same "
                "content reported again at a later instant, rewrites at the same instant that change only fields no checksum covers, "
                "cycle-closing edges created deleted as well as live, one script in twenty with a chain of 36 nodes written at its bottom, "
                "every second large batch writes 45 identities two or three times each in no particular order, one point in twenty carries a 310-byte text "
